@@ -14,18 +14,18 @@ import sys
 import time
 
 pid = sys.argv[1]
-checks = sys.argv[2:] or [pid.split('_')[0]]
+checks = sys.argv[2:] or [pid[:3]]
 src = '/tmp/seeded/%s' % pid
 wt = '/tmp/mut_%s' % pid
-if os.path.exists(os.path.join('/verif/seeded', pid, 'patch.diff')):
-    # re-create the worktree from /repo HEAD + the kept patch (the patch in /verif/seeded is the reference)
-    subprocess.run(['/verif/tools/mut.sh', pid], check=False)
 dst = '/verif/seeded/%s' % pid
 os.makedirs(dst, exist_ok=True)
 for f in ('patch.diff', 'demo.py', 'meta.json'):
     if os.path.exists(os.path.join(src, f)) and not os.path.exists(os.path.join(dst, f)):
         shutil.copy(os.path.join(src, f), os.path.join(dst, f))
 meta = json.load(open(os.path.join(dst, 'meta.json')))
+if os.path.exists(os.path.join('/verif/seeded', pid, 'patch.diff')):
+    # re-create the worktree from /repo HEAD + the kept patch (the patch in /verif/seeded is the reference)
+    subprocess.run(['/verif/tools/mut.sh', pid], check=False)
 
 
 def run(cmd, env=None, timeout=3000, cwd=None):
